@@ -314,7 +314,7 @@ PROPS = {
                   lambda prog, tier: _only(inval.run_fok(prog), "basis installed"),
                   lambda prog, tier: idxclass.run(prog, scope_units=("lib_mpq.c", "qsopt_mpq.c")),
                   lambda prog, tier: fullscan.run(prog, ["mpq_ILLlib_writebasis"], ("lib_mpq.c",), floor=2),
-                  lambda prog, tier: trunc.run(prog), lambda prog, tier: inval.run_skipgate(prog)],
+                  lambda prog, tier: trunc.run(prog), lambda prog, tier: inval.run_skipgate(prog), lambda prog, tier: normlen.run(prog)],
         "technique": "who-may-write ownership rule over interprocedural write-effect summaries; table agreement of type-resolved string "
                      "literals (writer format literals vs reader strcmp operands / section tables); must-follow dataflow for factorok",
         "explanation": "Decides three structural clauses of C14: (R-OWN) no public function outside the frozen owner table may write or "
@@ -757,7 +757,8 @@ _ADD = {
     "C14": {"technique": "; exit-condition analysis of the record-emitting loops of the basis writer",
             "explanation": " (R-FULLSCAN) the loops that emit XU/XL and UL records are left only on counter tests or failure exits; (R-SECTIONS) every "
                            "section emitter dominates ENDATA; (R-SKIPGATE) after a basis has been loaded (factorok reset, R-FOK) no solve entry "
-                           "point answers from the cache of the previous basis."},
+                           "point answers from the cache of the previous basis. (R-NORMLEN, symbol-table pair) every decrement of the symbol table's size deals with its name-to-index cache (index_ok): the basis "
+                           "reader resolves names through that cache."},
     "C16": {"explanation": " (R-STRFLAGS) no string function is applied to a flag array of the problem (a strncpy of intmarker stops at the first "
                            "continuous column). (R-NZCOUNT) every library function that changes the column counts of the problem's matrix also updates the stored "
                            "non-zero total (a problem whose total went stale differs observably from its copy, which is rebuilt entry by entry). (R-COPYFIELDS) sibling agreement of the two routines that build a whole problem: every field of "
